@@ -1,22 +1,41 @@
 """C20 Crash-restart neither loses nor duplicates work.
 
-Engine S + forked children.  One *scenario* = (workflow AST, job outcomes,
-command-return delays).  Every scheduler incarnation runs in its own forked
-child process of the shard worker (the ``Sim`` object, the event loop and all
-sqlite connections are created after the fork and die with the child):
+Engine S.  One *scenario* = (workflow AST, job outcomes, command-return
+delays).  Every scheduler incarnation is a fresh ``Sim`` (own event loop, own
+``Scheduler`` object) on one run directory; the virtual cluster's durable
+state (launch journal, messages the jobs have emitted) lives in an
+append-only file written with os.write + fsync and is rebuilt from that file
+by the next incarnation:
 
-* a **reference child** runs the scenario uninterrupted under the fair drain
-  and counts *effect events* (below); it reports K, the kind of every effect,
-  the cluster journal and the final ``task_outputs`` table;
-* for each kill point k a **crash child** replays the same scenario and calls
-  ``os._exit(137)`` immediately after effect k - no shutdown code, no commit,
-  no connection close: an open transaction is abandoned exactly as at process
-  death and SQLite rolls the hot journal back at the next open;
-* a **restart child** rebuilds the virtual cluster from its durable
-  append-only file, lets the jobs carry on while the scheduler is down
-  (their messages are lost), starts a new ``Scheduler`` on the same run
-  directory and drains to the end (optionally it is itself killed at its
-  effect k2 - e.g. during the restart load - and followed by another one).
+* a **reference incarnation** runs the scenario uninterrupted under the fair
+  drain and counts *effect events* (below); it yields K, the kind of every
+  effect, the cluster journal and the final ``task_outputs`` table;
+* for each kill point k a **crash incarnation** replays the same scenario
+  and dies immediately after effect k;
+* a **restart incarnation** rebuilds the cluster, lets the jobs carry on while
+  the scheduler is down (their messages are lost), starts a new ``Scheduler``
+  on the same run directory and drains to the end (optionally it is itself
+  killed at its effect k2 - e.g. during the restart load - and followed by
+  another one).
+
+Dying.  DESIGN 2.5 asks for a forked child and ``os._exit(137)``.  That is
+implemented (``_run_fork``) but a fork of the worker costs 2-6 s here (every
+copy-on-write fault of the child takes ~0.5 ms on this VM, a bare fork
+0.3 s) against 0.1 s for the incarnation itself, so by default death is
+emulated **in process** (``_run_inproc``): the effect hook marks the
+incarnation dead and raises ``_Killed`` (a BaseException - cylc has no
+handler for it); from that instant every durable operation the incarnation
+could still attempt from ``finally`` / ``__exit__`` code (private-DB connect,
+execute, executemany, commit; cluster launch; cluster record) raises again,
+a still-parked scheduler task is cancelled with ``handle_exception``
+replaced so that no shutdown code runs, and all its sqlite cursors and
+connections are closed WITHOUT commit (an open transaction is rolled back,
+as SQLite does for a dead process' hot journal).  The equivalence is not
+only argued but checked: for a sample of kill points (``xfork``) the same
+kill is carried out both ways and the complete private database (all
+tables, wall-clock columns and uuid excluded), the cluster file and the
+kill position must be identical (a difference is a harness error, exit 2).
+``C20_FORK_ALL=1`` runs everything with real forks (used by findings/).
 
 Effect events: every execute / executemany / commit on the private database
 (``cylc.flow.rundb`` sees a proxy of the sqlite3 module whose ``connect``
@@ -48,18 +67,20 @@ PROP_ID = 'C20'
 LEVEL = 'fault_enumeration'
 # budget = scenarios; each carries KILLS_PER_SCENARIO kill points (quick) or
 # all of them (thorough)
-BUDGET = {'quick': 96, 'thorough': 640}
+BUDGET = {'quick': 64, 'thorough': 256}
 KILLS_PER_SCENARIO = 12
 XFORK_ONE_IN = {'quick': 6, 'thorough': 3}
 EXHAUSTIVE = {'quick': False, 'thorough': False}
 WALL_LIMIT = {'quick': 1500, 'thorough': 6 * 3600}
 MANIFEST = {
     'engine': 'S',
-    'technique': 'fault enumeration: the real scheduler in a forked child is '
-                 'killed (os._exit) after its k-th effect event (DB '
-                 'statement / commit, cluster launch, callback, message '
-                 'dequeue, iteration boundary), restarted from the private DB '
-                 'in a new child and compared with the uninterrupted run',
+    'technique': 'fault enumeration: the real scheduler is killed after its '
+                 'k-th effect event (DB statement / commit, cluster launch, '
+                 'callback, message dequeue, iteration boundary) - in '
+                 'process with all durable operations refused from that '
+                 'instant, cross-checked against os._exit in a forked child '
+                 '- restarted from the private DB and compared with the '
+                 'uninterrupted run',
     'level_text': 'kill points of each generated scenario: 12 sampled per '
                   'scenario incl. every boundary class (quick) / all k <= K '
                   'for scenarios with K <= 400 (thorough); scenarios sampled',
@@ -81,7 +102,11 @@ RULE = (
     'statement, any k), each with a drawn amount of job progress while the '
     'scheduler is down (none / one step / to the end; messages lost) and in '
     'one quarter of them a second kill of the restarted scheduler at its '
-    'effect k2 <= 90 (restart load or later).  Thorough: every k <= K.  A '
+    'effect k2 <= 90 (restart load or later).  Thorough: every k <= K '
+    '(K > 400: strided), every 5th with a second kill.  One kill point of '
+    'every ~6th scenario (~3rd in thorough) is also carried out by '
+    'os._exit(137) in a forked child and must leave the same database and '
+    'cluster file as the in-process kill.  A '
     'kill point is non-trivial iff at the kill >= 1 job had been launched '
     'and the restarted scheduler still had work to do (it launched a job or '
     'changed a task state); a scenario is non-trivial iff it has such a kill '
@@ -98,10 +123,20 @@ ASSUMPTIONS = [
     '"Run again in the same flow" = more distinct submit numbers launched for '
     'one instance than its retry allowance (N+1) (retries off: 1); a second '
     'launch of the SAME submit number is judged by the third clause only.',
-    'Process death = os._exit(137) in the child right after the effect: no '
-    'atexit / finally / commit / close runs; file locks vanish with the '
-    'process; the next opener of the private DB rolls back the hot journal '
-    '(SQLite semantics trusted, no power loss).',
+    'Process death is emulated in process (fork + os._exit(137) costs 2-6 s '
+    'per incarnation on this VM): right after effect k the incarnation is '
+    'marked dead and a BaseException unwinds it; from then on every private-'
+    'DB connect / execute / executemany / commit, every cluster launch and '
+    'cluster record it attempts raises, no shutdown code runs, and its '
+    'cursors and connections are closed without commit, so an open '
+    'transaction is rolled back exactly as SQLite rolls back the hot journal '
+    'of a dead process.  Equivalence for the durable state is checked, not '
+    'assumed: one kill point of every ~6th scenario is also executed by '
+    'os._exit(137) in a forked child and the full private DB (all tables, '
+    'minus wall-clock columns and uuid), the cluster file and the kill '
+    'position must be equal (evidence: fork_crosschecks, '
+    'fork_crosschecks_with_hot_journal); only first-incarnation kills are '
+    'cross-checked.  No power loss: SQLite journal semantics are trusted.',
     'The stale contact file of the dead scheduler is removed by the harness: '
     'this is what workflow_files.detect_old_contact_file does once `cylc '
     'psutil` (a subprocess) reports the recorded PID dead.',
@@ -866,7 +901,9 @@ def resolve_kills(kills, pos, K) -> list:
     out, seen = [], set()
     if kills == 'all':
         for k in range(1, K + 1):
-            out.append((k, 0, k % 3))
+            # every 5th point is followed by a second kill of the restarted
+            # scheduler (k2 spread over its restart load and first loops)
+            out.append((k, (k * 7) % 90 + 1 if k % 5 == 0 else 0, k % 3))
         return out
     for sel in kills:
         ci, n, k2, down = sel
@@ -1068,16 +1105,39 @@ def judge(spec, ref, records, chain, final, k=0, first_commit_k=0) -> list:
                 def downstream(m, of):
                     return any((up.split('/', 1)[0], u) in of
                                for (up, u, _o) in atoms(m))
+                def behind_lost_message(m):
+                    # m waits for exactly an output whose message was lost
+                    # in the crash (received but uncommitted, or sent while
+                    # the scheduler was down); the task then completed
+                    # before the restart poll returned, and the polled
+                    # message for a task no longer in the pool does not
+                    # satisfy / spawn anything
+                    return any(
+                        o in at_risk.get((up.split('/', 1)[0], u), ())
+                        for (up, u, o) in atoms(m))
+
+                def after_missing_parentless(m):
+                    # parentless instances are spawned one after the other
+                    # (when the previous one leaves the runahead pool): the
+                    # successor of a lost parentless instance is lost too
+                    p = to_int.get(m[0])
+                    if p is None or not model.parentless(m[1], p):
+                        return False
+                    prev = [q for q in model.valid.get(m[1], ()) if q < p]
+                    return bool(prev) and (
+                        _to_str.get(max(prev)), m[1]) in miss
+
                 if all(m in roots or m in roots_e or downstream(m, miss)
                        or downstream(m, relaunched)
-                       or downstream(m, lost_msg) for m in miss):
+                       or behind_lost_message(m)
+                       or after_missing_parentless(m) for m in miss):
                     if roots:
                         sig += (':spawned-child-in-task_states-but-not-in-'
                                 'task_pool-at-crash')
                     elif roots_e:
                         sig += (':output-committed-before-children-spawned-'
                                 'or-satisfied')
-                    elif any(downstream(m, lost_msg) for m in miss):
+                    elif any(behind_lost_message(m) for m in miss):
                         sig += (':downstream-of-output-message-lost-in-'
                                 'crash-and-task-completed-before-restart-'
                                 'poll-returned')
